@@ -58,6 +58,7 @@ static void buf_free(buf_t* b) {
 }
 
 #include "h_dump.h"
+#include "h_script.h"
 
 #define MAXTOK 16
 static int split(char* line, char** tok) {
@@ -164,6 +165,14 @@ int main(int argc, char** argv) {
 #else
             printf("NA\n");
 #endif
+        } else if (!strcmp(cmd, "script") && nt == 2) {
+            run_script(tok[1]);
+        } else if (!strcmp(cmd, "reg") && nt == 2) {
+            run_registry_ops(tok[1]);
+        } else if (!strcmp(cmd, "ext") && nt == 2) {
+            run_ext_ops(tok[1]);
+        } else if (!strcmp(cmd, "arena") && nt == 2) {
+            run_arena(tok[1]);
         } else if (!h_dump_command(cmd, nt, tok)) {
             printf("BADCMD %s\n", cmd);
         }
